@@ -204,6 +204,24 @@ def sanitize(o):
     return repr(o)
 
 
+# ----------------------------------------------------------------------------- breadcrumbs
+
+_CRUMB = {"path": None, "n": 0, "resume_after": 0, "skip": set()}
+
+
+def crumb(case, bfs_mode=False):
+    """Announce the case about to run (see vx_core::util::crumb). Returns False if it must be skipped."""
+    if _CRUMB["path"] is None:
+        return True
+    _CRUMB["n"] += 1
+    n = _CRUMB["n"]
+    if (not bfs_mode and n <= _CRUMB["resume_after"]) or n in _CRUMB["skip"]:
+        return False
+    with open(_CRUMB["path"], "w") as f:
+        json.dump({"n": n, "bfs": bfs_mode, "case": sanitize(case)}, f)
+    return True
+
+
 # ----------------------------------------------------------------------------- command line
 
 def cli_main():
@@ -225,6 +243,9 @@ def cli_main():
     a, b = opt["--shard"].split("/")
     ctx = Ctx(opt["--tier"], int(a), int(b), int(opt["--seed"] or 0), float(opt["--wall"]), opt["--only"], opt["--profile"])
     rep = Report(prop)
+    _CRUMB["path"] = opt["--breadcrumb"]
+    _CRUMB["resume_after"] = int(opt["--resume-after"] or 0)
+    _CRUMB["skip"] = set(int(x) for x in (opt["--skip"] or "").split(",") if x)
     try:
         mod = __import__(prop.lower())
     except ImportError:
